@@ -180,6 +180,18 @@ reg(
     "DESIGN.md 4.5 C18",
 )
 
+reg(
+    "C20",
+    "Explicit-state search over merge histories: kernel bodies with 1-2 integer ops over two (and three) data inputs with every routing (swapped operands, an "
+    "input used twice, second op consuming the first on either side) are merged by the real convert_generic_body_to_phs + append_to_abstract_graph; all "
+    "histories of length <= 2 over the full alphabet and <= 3 over a sub-alphabet (thorough: <= 3 full, <= 5 sub), deduplicated by the printed abstract PE. "
+    "In EVERY state each kernel of the history is decoded by the real decode_abstract_graph and the merged PE, evaluated under those switch values on "
+    "{-2..3,7}^n, must compute that kernel; number of values = get_true_switches() = number of phs_switch fields of SNAXPHSAccelerator.",
+    "Trusted: machines/pe.py (choose = case by switch, mux = rhs iff 1). Integer i32 kernels only (float kernels not enumerated).",
+    "explicit-state exploration of operation histories over the real transition function with an invariant evaluated in every state",
+    "DESIGN.md 4.5 C20",
+)
+
 NOT_APPLICABLE = []
 
 ALL = [f"C{i:02d}" for i in range(1, 21)]
